@@ -161,9 +161,13 @@ class Pool:
         w = {'proc': p, 'conn': parent, 'busy': None, 't0': 0.0, 'ready': False}
         return w
 
-    def run(self, units, on_result, on_timeout=None):
-        """Run all units; on_result(idx, res). Returns list of harness errors."""
+    def run(self, units, on_result, on_timeout=None, max_timeouts=None):
+        """Run all units; on_result(idx, res). Returns list of harness errors.
+        max_timeouts: after that many units had to be killed twice the exploration is cut short (self.aborted is set; the
+        caller reports the cap) - a tree that hangs on many inputs would otherwise cost deadline x 2 per unit."""
         errors = []
+        self.aborted = False
+        n_timeouts = 0
         pending = list(range(len(units)))
         pending.reverse()
         n = min(self.nproc, max(1, len(units)))
@@ -218,11 +222,16 @@ class Pool:
                     self._replace(w)
                     if idx in retried:
                         done += 1
+                        n_timeouts += 1
                         if on_timeout:
                             on_timeout(idx)
                         else:
                             errors.append(
                                 f"unit {idx} exceeded {self.deadline}s twice")
+                        if max_timeouts is not None and n_timeouts >= max_timeouts:
+                            self.aborted = True
+                            self.close(kill=True)
+                            return errors
                     else:
                         retried.add(idx)
                         pending.append(idx)
@@ -242,8 +251,14 @@ class Pool:
         i = self.workers.index(w)
         self.workers[i] = self._spawn()
 
-    def close(self):
+    def close(self, kill=False):
         for w in self.workers:
+            if kill:
+                try:
+                    w['proc'].kill()
+                except Exception:
+                    pass
+                continue
             try:
                 w['conn'].send(None)
             except Exception:
